@@ -15,6 +15,7 @@ import (
 	"fmt"
 	"math"
 	"math/big"
+	"math/bits"
 	"os"
 	"sort"
 	"strconv"
@@ -117,6 +118,28 @@ func wordsOf(s M, k string) []decimal.Word {
 	a, ok := s[k].([]any)
 	if !ok {
 		panic(herr(fmt.Sprintf("step lacks words %q", k)))
+	}
+	if bits.UintSize == 32 {
+		// programs carry base-10^19 words; a 32-bit build has base-10^9 words: pass the same integer, re-cut
+		// (SetBitsExp strips leading zeros, so only the integer matters)
+		n, b19 := new(big.Int), new(big.Int).SetUint64(10000000000000000000)
+		for i := len(a) - 1; i >= 0; i-- {
+			u, err := strconv.ParseUint(a[i].(string), 10, 64)
+			if err != nil {
+				panic(herr("bad word"))
+			}
+			n.Mul(n, b19).Add(n, new(big.Int).SetUint64(u))
+		}
+		var w []decimal.Word
+		b9, r := big.NewInt(1000000000), new(big.Int)
+		for n.Sign() != 0 {
+			n.QuoRem(n, b9, r)
+			w = append(w, decimal.Word(r.Uint64()))
+		}
+		for len(w) < (len(a)*19+8)/9 { // keep the zero top words a caller may have put there
+			w = append(w, 0)
+		}
+		return w
 	}
 	w := make([]decimal.Word, len(a))
 	for i, e := range a {
@@ -304,7 +327,12 @@ func (m *machine) exec(s M) (ret any) {
 		e := m.reg(s, "x").MantExp(m.reg(s, "z"))
 		ret = M{"exp": strconv.Itoa(e)}
 	case "SetBitsExp":
-		m.reg(s, "z").SetBitsExp(wordsOf(s, "words"), num(s, "e"))
+		w, e := wordsOf(s, "words"), num(s, "e")
+		if bits.UintSize == 32 {
+			// the value is 0.mant x 10^e with mant as wide as the slice: re-cut words are 9 digits wide, not 19
+			e += int64(9*len(w) - 19*len(s["words"].([]any)))
+		}
+		m.reg(s, "z").SetBitsExp(w, e)
 	case "SetBitsExpSelf":
 		// the other allowed source: a slice obtained from BitsExp of the same receiver
 		z := m.reg(s, "z")
